@@ -70,6 +70,7 @@ typedef string Sid
 typedef Leaf TLeaf
 typedef map<i32,Leaf> ImT
 typedef list<TLeaf> LsT
+struct Big { 1: map<i64,Leaf> Bm, 2: list<Leaf> Bl, 3: i32 X }
 struct Tdr { 1: map<Id2,Leaf> Tm, 2: map<Sid,TLeaf> Tsm, 3: ImT Wm, 4: TLeaf Tl, 5: LsT Tls, 6: map<Id,Sid> Tss }
 `
 
@@ -92,6 +93,7 @@ type rfield struct {
 	t    *rtype
 }
 type rtype struct {
+	big    bool // keys / indices beyond 2^31 are part of the alphabet
 	kind   rkind
 	name   string
 	fields []rfield
@@ -111,7 +113,9 @@ func refTypes() map[string]*rtype {
 	tdr := &rtype{kind: kStruct, name: "Tdr", fields: []rfield{
 		{1, "Tm", &rtype{kind: kIntMap, elem: leaf}}, {2, "Tsm", &rtype{kind: kStrMap, elem: leaf}}, {3, "Wm", &rtype{kind: kIntMap, elem: leaf}}, {4, "Tl", leaf},
 		{5, "Tls", &rtype{kind: kList, elem: leaf}}, {6, "Tss", &rtype{kind: kIntMap, elem: sc}}}}
-	return map[string]*rtype{"Root": root, "Mid": mid, "RootNeg": rneg, "Tdr": tdr}
+	// i64 keys and list indices that do not fit 32 bits
+	big := &rtype{kind: kStruct, name: "Big", fields: []rfield{{1, "Bm", &rtype{kind: kIntMap, elem: leaf, big: true}}, {2, "Bl", &rtype{kind: kList, elem: leaf, big: true}}, {3, "X", sc}}}
+	return map[string]*rtype{"Root": root, "Mid": mid, "RootNeg": rneg, "Tdr": tdr, "Big": big}
 }
 
 // ---------------------------------------------------------------- paths
@@ -177,7 +181,11 @@ func enumPaths(t *rtype, d int, byID bool) []path {
 				}{step{kind: "star", text: ".*"}, t.fields[0].t})
 			}
 		case kList:
-			for _, s := range idxSets {
+			sets := idxSets
+			if t.big {
+				sets = [][]int{{0}, {2147483648}, {1, 4294967297}}
+			}
+			for _, s := range sets {
 				nexts = append(nexts, struct {
 					s step
 					t *rtype
@@ -199,7 +207,11 @@ func enumPaths(t *rtype, d int, byID bool) []path {
 				t *rtype
 			}{step{kind: "star", text: "{*}"}, t.elem})
 		case kIntMap:
-			for _, s := range ikeySets {
+			sets := ikeySets
+			if t.big {
+				sets = [][]int{{1}, {2147483648}, {2, 4294967297}, {9007199254740993}}
+			}
+			for _, s := range sets {
 				nexts = append(nexts, struct {
 					s step
 					t *rtype
@@ -776,7 +788,7 @@ func main() {
 	}
 	_, fd := thrift_reflection.RegisterAST(ast)
 	c := &ctx{run: run, descs: map[string]*thrift_reflection.TypeDescriptor{}, rt: refTypes()}
-	for _, r := range []string{"Root", "Mid", "RootNeg", "Tdr"} {
+	for _, r := range []string{"Root", "Mid", "RootNeg", "Tdr", "Big"} {
 		c.descs[r] = getDesc(fd, r)
 	}
 	if *replay != "" {
@@ -809,7 +821,7 @@ func main() {
 
 	// ---- (a) valid path lists
 	var transitions int64
-	for _, root := range []string{"Mid", "Root", "RootNeg", "Tdr"} {
+	for _, root := range []string{"Mid", "Root", "RootNeg", "Tdr", "Big"} {
 		depth := 3
 		if root == "Root" {
 			depth = 2
